@@ -7,7 +7,8 @@ on_event_received record) belong to that transition.
 from __future__ import annotations
 
 from .. import drive, gen, observe, oracle
-from ..observe import config_of
+from ..observe import (Interpreter, MachineLogic, SyncInterpreter, config_of, create_machine, drain,
+                       run_virtual)
 from .common import Result, Watchdog, h, mk_chunks, plan_summary, rng_for
 
 ID = "C03"
@@ -293,6 +294,73 @@ def run_case(res: Result, spec, idx):
                           case={"idx": idx, "engine": engine})
 
 
+def sibling_region_abort(res: Result, engine, first, fault):
+    """Frame law under a fault: one event fires a transition in each of two parallel regions and the
+    one executed LATER is aborted (missing entry action / unresolvable target).  Its rollback may
+    only touch its own region: the state the earlier transition entered stays active with its timer
+    armed, its entry actions ran once, and nothing of it was exited."""
+    log = []
+
+    def mk(n):
+        return lambda i, c, e, a: log.append(n)
+    bad_target = {"missing-entry-action": "boom", "unresolvable-target": "#m.__nowhere__"}[fault]
+    # executed first = smaller state id among equally deep sources
+    ok_region, bad_region = ("ra", "rb") if first == "ok-first" else ("rb", "ra")
+    regions = {
+        ok_region: {"initial": "idle", "states": {
+            "idle": {"on": {"GO": "armed"}},
+            "armed": {"entry": ["armed.entry"], "exit": ["armed.exit"],
+                      "after": {"900000": {"actions": ["tick"]}}}}},
+        bad_region: {"initial": "idle", "states": {
+            "idle": {"exit": ["other.idle.exit"], "on": {"GO": bad_target}},
+            "boom": {"entry": ["not_implemented_anywhere"]}}}}
+    cfg = {"id": "m", "type": "parallel", "states": regions}
+    machine = create_machine(cfg, logic=MachineLogic(actions={
+        n: mk(n) for n in ("armed.entry", "armed.exit", "tick", "other.idle.exit")}))
+    out = {}
+    if engine == "sync":
+        it = SyncInterpreter(machine).start()
+        try:
+            it.send("GO")
+        except Exception as x:  # noqa: BLE001
+            out["raised"] = type(x).__name__
+        out["cfg"], out["timers"] = config_of(it), dict(observe.live_timers(it))
+        it.stop()
+    else:
+        async def body():
+            it = Interpreter(machine)
+            await it.start()
+            await it.send("GO")
+            await drain(it)
+            out["cfg"], out["timers"] = config_of(it), dict(observe.live_timers(it))
+            await it.stop()
+        run_virtual(body)
+    res.evaluations += 1
+    res.count("sibling-region-abort." + engine)
+    res.hashes.add(h(["sibling-abort", engine, first, fault]))
+    armed = "m.%s.armed" % ok_region
+    wit = {"engine": engine, "order": first, "fault": fault, "config": cfg, "log": log,
+           "configuration": sorted(out["cfg"]), "timers": out["timers"], "raised": out.get("raised")}
+    if first == "ok-first":
+        # the earlier transition completed; only the later one is undone
+        if armed not in out["cfg"]:
+            res.count("sibling-region-abort.earlier-transition-also-undone(unjudged)")
+            return
+        if out["timers"].get(armed, 0) != 1:
+            res.violation("C03:abort-in-one-region-cancelled-a-sibling-region's-timer/%s/%s" % (fault, engine),
+                          "%s is active but has %d live timers" % (armed, out["timers"].get(armed, 0)), wit)
+        elif log.count("armed.entry") != 1 or "armed.exit" in log:
+            res.violation("C03:abort-in-one-region-disturbed-a-sibling-region/%s/%s" % (fault, engine),
+                          "entry/exit accounting of %s: %s" % (armed, log), wit)
+    else:
+        # the failing transition ran first: the other region's transition still happens (or the whole
+        # event is abandoned) - either way the armed state has a timer iff it is active
+        if (armed in out["cfg"]) != (out["timers"].get(armed, 0) == 1):
+            res.violation("C03:timer-census-disagrees-with-configuration-after-abort/%s/%s" % (fault, engine),
+                          "%s active=%s, live timers=%d" % (armed, armed in out["cfg"], out["timers"].get(armed, 0)),
+                          wit)
+
+
 def run_chunk(spec):
     observe.quiet_logs()
     observe.install_task_wrappers()
@@ -306,6 +374,14 @@ def run_chunk(spec):
     for j in range(spec["n"]):
         wd.arm("idx=%d" % (base + j))
         run_case(res, spec, base + j)
+    k = 0
+    for engine in ("sync", "async"):
+        for first in ("ok-first", "bad-first"):
+            for fault in ("missing-entry-action", "unresolvable-target"):
+                if k % 16 == spec["chunk"] % 16:
+                    wd.arm("sibling region abort %s %s" % (engine, first))
+                    sibling_region_abort(res, engine, first, fault)
+                k += 1
     wd.disarm()
     for k, v in observe.WRAP_COUNTS.items():
         res.count("wrapper." + k, v)
